@@ -281,6 +281,7 @@ RecvEv(ws0, v) ==
 
 RecvErr(ws, cls) ==
   IF "readfault" \in ws.flags /\ cls # "overflow" THEN Note([ws EXCEPT !.flags = @ \ {"readfault"}], "read_fault")   \* the injected read(2) failure is a genuine one
+  ELSE IF "regfault" \in ws.flags /\ cls = "errno:EINVAL" THEN Note([ws EXCEPT !.flags = @ \ {"regfault"}], "new_directory_unwatchable")
   ELSE IF "regloop" \in ws.flags /\ cls = "errno:ELOOP" THEN Note([ws EXCEPT !.flags = @ \ {"regloop"}], "new_directory_unwatchable")
   ELSE IF cls = "overflow"
   THEN IF ws.ovf THEN Note([ws EXCEPT !.gotOvf = @ + 1], "overflow")
